@@ -644,6 +644,20 @@ pub fn check_src(stmts: &[Stmt], inputs: &[(u8, u8, u8)]) -> Result<(), String> 
                 if reason != r as usize || start_line != line {
                     return Err(format!("inputs ({a}, {b}, {c}): the first failing operation is on line {line} (reason {r}); the circuit reports reason {reason} on line {start_line}\n{src}"));
                 }
+                // the reported span is that of the failing operation itself (checked for the plain `let vK = x op y;` statements, where the span is
+                // known from the text: columns count from 0, the end is exclusive)
+                if let Some(k) = (0..stmts.len()).find(|k| first_line[*k] == line) {
+                    if let Stmt::Arith(bin) = &stmts[k] {
+                        let text = src.lines().nth(line).unwrap_or("");
+                        let expr = bin_src(bin);
+                        if let Some(col) = text.find(&expr) {
+                            let (sc, el, ec) = (bits_to_usize(&out[65..97]), bits_to_usize(&out[97..129]), bits_to_usize(&out[129..161]));
+                            if (sc, el, ec) != (col, line, col + expr.len()) {
+                                return Err(format!("inputs ({a}, {b}, {c}): the failing operation `{expr}` is at {line}:{col}-{line}:{}; the circuit reports {start_line}:{sc}-{el}:{ec}\n{src}", col + expr.len()));
+                            }
+                        }
+                    }
+                }
             }
         }
     }
